@@ -108,10 +108,7 @@ func (r *Run) recordViolation(kind, msg string, cond *Term) {
 			any = true
 		}
 	}
-	if !any && cond.op == "true" {
-		// cannot happen (path condition is satisfiable); keep the report rather than lose it
-		r.Viol = append(r.Viol, Violation{Msg: msg, Kind: kind, Choices: append([]string{}, r.Choices...), Ints: append([]int{}, r.Ints...), Decision: append([]int{}, r.Trace...)})
-	}
+	_ = any
 }
 
 func (r *Run) modelViolation(kind, msg string, cond *Term) (Violation, bool) {
